@@ -194,6 +194,7 @@ class Disturber:
         self.stale = bytes(case["dist"].get("stale", b"")) or None
         self.arm_between = False
         self.mux_na = False
+        self.stale_abort = False
 
     def phase(self):
         st_ = self.rig.server_state()
@@ -272,6 +273,11 @@ class Disturber:
         return Frame(TX, data, ts=like.ts, src=self.rig.sport)
 
     def _inject(self, data):
+        if bytes(data)[:1] == b"\x80":
+            # a stale frame that happens to be an abort frame: the client rightly gives the transfer
+            # up without telling the server, which would only recover by its own time-out - emulated
+            # before the follow-up (same as for the 'abort' disturbance)
+            self.stale_abort = True
         self.injected.append((bytes(data), len(self.responses)))
         return Frame(TX, bytes(data), ts=self.rig.hub.now(), src=self.rig.sport)
 
@@ -309,6 +315,8 @@ def run_case(case) -> Outcome:
     mark = len(rig.cport.sent)
     res = do_transfer(rig, kind, IDX, SUB, data)
     dis.active = False
+    if dis.stale_abort and peer == "ref":
+        rig.srv._reset()
     client_frames = [f.data for f in rig.cport.sent[mark:] if f.can_id == RX]
     D = []
     tag = f"{kind} len {n} peer {peer} disturb {case['dist']} at k={case['k']}"
